@@ -18,11 +18,13 @@ META = {
                  "sets/streams are validated by TLC against the contract FilterSetTrace.tla",
     "design_ref": "DESIGN.md section 6, C12",
     "level_text": "Exhaustive within bounds on the model: all multisets of <=3 (thorough: <=4) "
-                  "filters drawn from 12 base filters (matching everything, disabled, literal/negated/regex id, type alone, "
-                  "type + id, negated type, payload, lifecycle, disabled with criterion) as positive/negative/event filters "
-                  "and 3 marker filters; 11 messages of which several share the address (ecu, apid, ctid) and differ in exactly "
-                  "one other field (type, verbose bit, text, lifecycle); streams: an Euler circuit that makes every ordered "
-                  "pair of messages adjacent once (122 messages), the empty stream and 4 short ones; model checking steps the "
+                  "filters drawn from 14 base filters (matching everything, disabled, literal/negated/regex id on ecu, apid, ctid, "
+                  "ecu + apid, type alone, type + id, negated type, payload, lifecycle, disabled with criterion) as "
+                  "positive/negative/event filters and 3 marker filters; 15 messages: for every field (ecu with and without "
+                  "extended header, apid, ctid, type, verbose bit, text, lifecycle) two messages differ in exactly that field; "
+                  "streams: an Euler circuit that makes every ordered pair of messages adjacent once (226 messages), all "
+                  "messages in descending order (so every pair occurs in both orders of first occurrence), the empty stream "
+                  "and short ones; model checking steps the "
                   "stream filter on sets of <=2 (3) filters; every set executed on both real implementations and compared "
                   "with TLC's prediction; random sets of up to 12 filters (a third of them with id/type criteria only) and "
                   "streams of up to 40 (200) messages with runs of messages sharing the address, decided by TLC.",
@@ -122,6 +124,31 @@ def check(ctx):
     nm = len(tab["msgs"])
     if len(all_adj) != nm * nm or not same_addr_adj:
         raise c.ToolError("vacuity: the streams do not make every ordered pair of messages adjacent (%d of %d)" % (len(all_adj), nm * nm))
+    # every pair of messages occurs in some stream in both orders of first occurrence (a decision remembered for a whole
+    # stream under a key that leaves out a field shows up whichever message comes first)
+    first_before = set()
+    for st_ in tab["streams"]:
+        order = []
+        for k in st_:
+            if k not in order:
+                order.append(k)
+        first_before.update((order[i], order[j]) for i in range(len(order)) for j in range(i + 1, len(order)))
+    if len(first_before) != nm * (nm - 1):
+        raise c.ToolError("vacuity: not every pair of messages occurs in both orders of first occurrence (%d of %d)" % (len(first_before), nm * (nm - 1)))
+    paths["message_pairs_both_orders_of_first_occurrence"] = len(first_before) // 2
+    # pairs of messages that differ in exactly one field, per field
+    one_field = {}
+    flds = ("ecu", "ext", "apid", "ctid", "vmm", "text", "lc")
+    for i in range(nm):
+        for j in range(i + 1, nm):
+            d = [f for f in flds if tab["msgs"][i][f] != tab["msgs"][j][f]]
+            if len(d) == 1:
+                key = d[0] + ("" if tab["msgs"][i]["ext"] else "_without_ext_header")
+                one_field[key] = one_field.get(key, 0) + 1
+    missing = [f for f in ("ecu", "ecu_without_ext_header", "apid", "ctid", "vmm", "text", "lc") if not one_field.get(f)]
+    if missing:
+        raise c.ToolError("vacuity: no two messages differ in exactly the field(s) %s" % missing)
+    paths["message_pairs_differing_in_exactly_one_field"] = one_field
     paths["ordered_message_pairs_adjacent"] = len(all_adj)
     paths["same_address_pairs_adjacent"] = len(same_addr_adj)
     paths["sets_address_and_type_only"] = 0
@@ -187,7 +214,7 @@ def check(ctx):
     ctx.rule = ("an evaluation = one decision of the real code on one message (match_filters on one container, or one input "
                 "message of a filter_as_streams run); a trace = one filter-set case whose recorded events TLC accepted; "
                 "non-trivial = distinct TLC-enumerated filter sets with at least one enabled non-marker filter (each is run "
-                "on 2 containers x 11 messages and on 6 streams, one of which makes every ordered pair of messages adjacent)")
+                "on 2 containers x 15 messages and on 8 streams, one of which makes every ordered pair of messages adjacent)")
     ctx.exhaustive = True
     ctx.extra["replayed"] = st.get("fast_path", 0) + st.get("drift", 0)
     ctx.extra["fast_path"] = st.get("fast_path", 0)
